@@ -114,9 +114,11 @@ fn clone_everywhere(rep: &mut Report, p: &Params, bars: bool, seed: u64) {
         };
         let mut c = a.try_clone().ok();
         // a used instance overwritten through Clone::clone_from must continue like a clone, too
-        let mut e = Inst::new(p);
-        for op in &d[..(cut % 7 + 1).min(len)] {
-            e.apply(op);
+        // (built with the same, smaller or larger periods in turn, and fed past its own first wrap)
+        let rp = p.receiver_variant(cut);
+        let mut e = Inst::new(&rp);
+        for i in 0..(cut % 7 + 1 + if cut % 2 == 0 { rp.max_period().min(40) } else { 0 }) {
+            e.apply(&d[i % len]);
         }
         let e_ok = e.assign_from(&a).is_ok();
         let mut u = Inst::new(p); // unrelated live instance with the same parameters
